@@ -45,6 +45,9 @@ def makeResponse (code : Nat) (variant : String) : Response × Bool :=
   | "c" => ({ code := code, ctype := some Response.plainText, body := Body.ofBytes (b!"x"),
               headers := [⟨b!"Content-Length", b!"1"⟩] }, false)
   | "t" => ({ code := code, ctype := some (b!"text/html; charset=UTF-8"), headers := [⟨b!"content-type", b!"a/b"⟩] }, false)
+  | "k" => ({ code := code, headers := [⟨b!"Connection", b!"keep-alive"⟩] }, true)
+  | "u" => ({ code := code, ctype := some Response.plainText, body := Body.ofBytes (b!"x"),
+              headers := [⟨b!"connection", b!"Upgrade"⟩, ⟨b!"x-a", b!"1"⟩] }, true)
   | "s" => ({ code := code, ctype := some (b!"text/event-stream"),
               body := ⟨none, { pieces := [b!"data: tick\n"] }⟩ }, true)
   | v =>
